@@ -5,6 +5,7 @@ import (
 	"encoding/json"
 	"fmt"
 	"os"
+	"sort"
 	"strings"
 	"sync"
 	"testing"
@@ -26,18 +27,34 @@ import (
 // ticker's wait is open the instance "syncs" in its role; resign when a leader stops;
 // restart of the cluster client after a failure). The explorer decides the fate of
 // every request the store receives (delivered / answered with an error / executed but
-// reply lost / connection dead before the request), deviation-bounded.
+// reply lost / connection dead before the request), deviation-bounded. In addition a
+// complete fault dimension: one instance is cut off from the store (or the store answers
+// it with errors) for EVERY consecutive run of its election calls, starting at every
+// call, for every listed (leaseTimeout, renewInterval) pair - including timeouts that are
+// not a multiple of the interval - and every phase of the second instance's ticks.
 //
 // Third part: ClusterConfig.fix over a grid of (leaseTimeout, leaseRenewInterval).
 
 type c15tScenario struct {
-	Kind     string `json:"kind"` // "ticker" | "config-fix"
-	TimeoutS int    `json:"lease_timeout_s,omitempty"`
-	RenewMs  int    `json:"lease_renew_interval_ms,omitempty"`
-	HorizonS int    `json:"horizon_s,omitempty"`
+	Kind     string     `json:"kind"` // "ticker" | "config-fix"
+	TimeoutS int        `json:"lease_timeout_s,omitempty"`
+	RenewMs  int        `json:"lease_renew_interval_ms,omitempty"`
+	HorizonS int        `json:"horizon_s,omitempty"`
+	PhaseMs  int        `json:"phase_ms,omitempty"` // start of the second instance (odd multiple of 250 ms: the two instances never act at the same instant)
+	Fault    *c15tFault `json:"fault,omitempty"`    // nil: the explorer decides every request's fate (deviation-bounded)
 	// config-fix
 	InTimeoutMs int64 `json:"in_timeout_ms,omitempty"`
 	InRenewMs   int64 `json:"in_renew_ms,omitempty"`
+}
+
+// c15tFault is one element of the complete fault dimension.
+type c15tFault struct {
+	Victim int    `json:"victim"` // 1 | 2
+	Kind   string `json:"fate"`   // "error-reply": the store answers errors, the connection survives
+	//                               "cut": the connection dies before the call reaches the store and the instance cannot reconnect
+	//                               "reply-lost": the call is executed, its reply is lost with the connection, then as "cut"
+	Start int `json:"start_call"` // the victim's n-th election call (campaign/renew/resign attempts, 1-based) is the first one hit
+	Len   int `json:"length"`     // error-reply: number of consecutive calls hit; cut/reply-lost: seconds without the store; 0 = until the end
 }
 
 type c15tInst struct {
@@ -45,10 +62,35 @@ type c15tInst struct {
 	active    bool  // syncing as leader: campaign said leader and clusterTicker has not returned
 	lastOK    int64 // ms: last time the instance was told "leader" (campaign) or a renewal succeeded
 	following bool
+	renewErr  int64 // ms: time of the most recent Renew call if it returned an error and no Renew succeeded since (-1 none)
+	calls     int   // election calls that reached (or were about to reach) the store
+	cutUntil  int64 // ms: the instance cannot reach the store before this time (-1: not cut; maxInt: for good)
 }
 
+// c15tElection passes every call to the real election and notes what Renew returned.
+type c15tElection struct {
+	cluster.Election
+	onRenew func(err error)
+}
+
+func (e *c15tElection) Renew(ctx context.Context) error {
+	err := e.Election.Renew(ctx)
+	e.onRenew(err)
+	return err
+}
+
+const c15tForever = int64(1) << 60
+
 func c15tExec(t *testing.T, scn c15tScenario, ch *mc.Chooser) mc.Result {
+	r, _ := c15tExecN(t, scn, ch)
+	return r
+}
+
+// c15tExecN also returns how many election calls each instance made.
+func c15tExecN(t *testing.T, scn c15tScenario, ch *mc.Chooser) (mc.Result, [2]int) {
+	var calls [2]int
 	var res *mc.Result
+	found := map[string]mc.Result{}
 	var trace []string
 	var machinery string
 	events := 0
@@ -68,16 +110,16 @@ func c15tExec(t *testing.T, scn c15tScenario, ch *mc.Chooser) mc.Result {
 		ms := func() int64 { return time.Since(start).Milliseconds() }
 
 		var mu sync.Mutex
-		inst := []*c15tInst{{id: "10.0.0.1:18001", lastOK: -1}, {id: "10.0.0.2:18001", lastOK: -1}}
+		inst := []*c15tInst{{id: "10.0.0.1:18001", lastOK: -1, renewErr: -1, cutUntil: -1}, {id: "10.0.0.2:18001", lastOK: -1, renewErr: -1, cutUntil: -1}}
 		connOwner := map[int]int{}
 		viol := func(clause, sig string, d map[string]interface{}) {
-			if res != nil {
+			if _, ok := found[sig]; ok {
 				return
 			}
 			d["trace"] = append([]string(nil), trace...)
-			d["lease_timeout_s"], d["renew_interval"] = ttl, cc.LeaseRenewInterval.String()
-			r := mc.Violation(clause, sig, d)
-			res = &r
+			d["lease_timeout"], d["store_lease_period_s"], d["renew_interval"] = cc.LeaseTimeout.String(), ttl, cc.LeaseRenewInterval.String()
+			trace = append(trace, fmt.Sprintf("t=%dms VIOLATION %s", ms(), sig))
+			found[sig] = mc.Violation(clause, sig, d)
 		}
 		// check is called (mu held) whenever something changed and at sampling instants
 		check := func(where string) {
@@ -88,6 +130,10 @@ func c15tExec(t *testing.T, scn c15tScenario, ch *mc.Chooser) mc.Result {
 					continue
 				}
 				n++
+				if in.renewErr >= 0 && now > in.renewErr {
+					viol("a renewal failed but the leader loop keeps running: the failed renewal is not reported as loss of leadership",
+						"C15:ticker:failed-renewal-not-reported", map[string]interface{}{"instance": i + 1, "now_ms": now, "renew_failed_at_ms": in.renewErr, "last_success_ms": in.lastOK, "at": where})
+				}
 				if in.lastOK < 0 || now >= in.lastOK+ttlMs {
 					viol("an instance keeps acting as leader although its lease period has run out (no successful campaign/renewal within one lease period)",
 						"C15:ticker:leader-past-lease", map[string]interface{}{"instance": i + 1, "now_ms": now, "last_success_ms": in.lastOK, "at": where})
@@ -118,13 +164,41 @@ func c15tExec(t *testing.T, scn c15tScenario, ch *mc.Chooser) mc.Result {
 			if !isCampaign {
 				kind = "resign"
 			}
-			c := ch.Choose(fmt.Sprintf("req%d", nreq), 3)
+			c := 0
+			if f := scn.Fault; f == nil {
+				c = ch.Choose(fmt.Sprintf("req%d", nreq), 3)
+			} else {
+				mu.Lock()
+				inst[who].calls++
+				n := inst[who].calls
+				if who == f.Victim-1 {
+					until := c15tForever
+					switch f.Kind {
+					case "error-reply":
+						if n >= f.Start && (f.Len == 0 || n < f.Start+f.Len) {
+							c = 1
+						}
+					case "cut", "reply-lost":
+						if n == f.Start {
+							c = 3
+							if f.Kind == "reply-lost" {
+								c = 2
+							}
+							if f.Len > 0 {
+								until = ms() + int64(f.Len)*1000
+							}
+							inst[who].cutUntil = until
+						}
+					}
+				}
+				mu.Unlock()
+			}
 			events++
 			mu.Lock()
-			trace = append(trace, fmt.Sprintf("t=%dms i%d %s -> %s", ms(), who+1, kind, []string{"delivered", "error reply (not executed)", "executed, reply lost"}[c]))
+			trace = append(trace, fmt.Sprintf("t=%dms i%d %s -> %s", ms(), who+1, kind, []string{"delivered", "error reply (not executed)", "executed, reply lost, connection dead", "never reaches the store, connection dead"}[c]))
 			mu.Unlock()
 			seq := r.Seq
-			if c == 1 {
+			if c == 1 || c == 3 {
 				if plan.FailAt == nil {
 					plan.FailAt = map[int]string{}
 				}
@@ -135,7 +209,7 @@ func c15tExec(t *testing.T, scn c15tScenario, ch *mc.Chooser) mc.Result {
 					return
 				}
 				plan.AfterReq = nil
-				if c == 2 {
+				if c == 2 || c == 3 {
 					srv.KillConnLocked(r2.Conn, true)
 					return
 				}
@@ -163,6 +237,12 @@ func c15tExec(t *testing.T, scn c15tScenario, ch *mc.Chooser) mc.Result {
 					cl.Close()
 					cl = nil
 				}
+				mu.Lock()
+				cut := ms() < in.cutUntil
+				mu.Unlock()
+				if cut {
+					return false // connection refused / unreachable
+				}
 				c, err := cluster.NewRedisCluster(runWait.Context(), config.RedisConfig{Addresses: []string{c15Addr}, Type: config.RedisTypeStandalone, Otype: config.RedisTypeStandalone, Version: "7.2.0"}, ttl)
 				if err != nil {
 					return false
@@ -171,7 +251,16 @@ func c15tExec(t *testing.T, scn c15tScenario, ch *mc.Chooser) mc.Result {
 				connOwner[srv.LastConn()] = i
 				mu.Unlock()
 				cl = c
-				el = cl.NewElection(runWait.Context(), c15Key, in.id)
+				el = &c15tElection{Election: cl.NewElection(runWait.Context(), c15Key, in.id), onRenew: func(err error) {
+					mu.Lock()
+					if err != nil {
+						in.renewErr = ms()
+						trace = append(trace, fmt.Sprintf("t=%dms i%d Renew returned error: %v", ms(), i+1, strings.ReplaceAll(err.Error(), "\n", " ")))
+					} else {
+						in.renewErr = -1
+					}
+					mu.Unlock()
+				}}
 				return true
 			}
 			defer func() {
@@ -198,6 +287,7 @@ func c15tExec(t *testing.T, scn c15tScenario, ch *mc.Chooser) mc.Result {
 				}
 				wait := usync.NewWaitCloserFromParent(runWait, nil)
 				mu.Lock()
+				in.renewErr = -1
 				if role == cluster.RoleLeader {
 					in.active, in.lastOK = true, ms()
 					trace = append(trace, fmt.Sprintf("t=%dms i%d starts syncing as LEADER", ms(), i+1))
@@ -234,11 +324,15 @@ func c15tExec(t *testing.T, scn c15tScenario, ch *mc.Chooser) mc.Result {
 		}
 		wg.Add(2)
 		go drive(0, 0)
-		go drive(1, 250*time.Millisecond)
+		phase := time.Duration(scn.PhaseMs) * time.Millisecond
+		if phase == 0 {
+			phase = 250 * time.Millisecond
+		}
+		go drive(1, phase)
 		// ---- sampling monitor on the harness goroutine (never at the same instant as an instance acts)
 		horizon := time.Duration(scn.HorizonS) * time.Second
 		time.Sleep(125 * time.Millisecond)
-		for time.Since(start) < horizon && res == nil {
+		for time.Since(start) < horizon {
 			mu.Lock()
 			check("sample")
 			mu.Unlock()
@@ -249,6 +343,20 @@ func c15tExec(t *testing.T, scn c15tScenario, ch *mc.Chooser) mc.Result {
 		mu.Unlock()
 		runWait.Close(nil)
 		wg.Wait()
+		calls = [2]int{inst[0].calls, inst[1].calls}
+		// the gravest clause that was broken is the verdict; the others are listed with it
+		for _, sig := range []string{"C15:ticker:two-active-leaders", "C15:ticker:leader-past-lease", "C15:ticker:failed-renewal-not-reported"} {
+			if r, ok := found[sig]; ok && res == nil {
+				var all []string
+				for k := range found {
+					all = append(all, k)
+				}
+				sort.Strings(all)
+				r.Detail.(map[string]interface{})["all_clauses_broken"] = all
+				r.Detail.(map[string]interface{})["trace"] = append([]string(nil), trace...)
+				res = &r
+			}
+		}
 		if len(srv.MachineryErrors) > 0 {
 			machinery = "double: " + strings.Join(srv.MachineryErrors, "; ")
 		}
@@ -257,15 +365,15 @@ func c15tExec(t *testing.T, scn c15tScenario, ch *mc.Chooser) mc.Result {
 		machinery = "bubble: " + msg
 	}
 	if machinery != "" {
-		return mc.Result{Verdict: "machinery", Clause: machinery, Detail: trace}
+		return mc.Result{Verdict: "machinery", Clause: machinery, Detail: trace}, calls
 	}
 	if os.Getenv("VERIF_TRACE") != "" {
 		fmt.Fprintln(os.Stderr, strings.Join(trace, "\n"))
 	}
 	if res != nil {
-		return *res
+		return *res, calls
 	}
-	return mc.OK(mc.Hash(trace...), ch.Deviations() > 0, events)
+	return mc.OK(mc.Hash(trace...), ch.Deviations() > 0 || scn.Fault != nil, events), calls
 }
 
 // c15ConfigFix judges ClusterConfig.fix for one input.
@@ -288,14 +396,55 @@ func c15ConfigFix(scn c15tScenario) mc.Result {
 	return mc.OK(mc.Hash(cc.LeaseTimeout.String(), cc.LeaseRenewInterval.String()), scn.InTimeoutMs != 0 || scn.InRenewMs != 0, 1)
 }
 
-func c15tScenarios(tier string) (out []c15tScenario, bound int) {
-	bound = 2
-	out = []c15tScenario{{Kind: "ticker", TimeoutS: 3, RenewMs: 1000, HorizonS: 8}, {Kind: "ticker", TimeoutS: 6, RenewMs: 2000, HorizonS: 10}}
+// c15tConfigs lists (leaseTimeout s, renewInterval ms, horizon s, phases of the second instance in ms).
+// Intervals are multiples of 500 ms and phases odd multiples of 250 ms, so that the first
+// instance acts on the 500 ms grid, the second one between grid points and the monitor
+// at the odd multiples of 125 ms: never two of them at the same virtual instant.
+type c15tConfig struct {
+	timeoutS, renewMs, horizonS int
+	phases                      []int
+	dfs                         int // deviation bound of the per-request search (-1: none)
+}
+
+func c15tConfigs(tier string) []c15tConfig {
 	if tier == "thorough" {
-		bound = 3
-		out = []c15tScenario{{Kind: "ticker", TimeoutS: 3, RenewMs: 1000, HorizonS: 10}, {Kind: "ticker", TimeoutS: 6, RenewMs: 2000, HorizonS: 14}, {Kind: "ticker", TimeoutS: 9, RenewMs: 1000, HorizonS: 12}}
+		return []c15tConfig{
+			{3, 1000, 12, []int{250, 750}, 3},
+			{5, 1500, 19, []int{250, 750, 1250}, 3},
+			{6, 2000, 24, []int{250, 750, 1250, 1750}, 2},
+			{10, 3000, 38, []int{250, 750, 1250, 1750, 2250, 2750}, 2},
+			{4, 1000, 14, []int{250, 750}, 2}, // interval below timeout/3
+			{7, 2000, 26, []int{250, 750, 1250, 1750}, -1},
+		}
 	}
-	return
+	return []c15tConfig{
+		{3, 1000, 12, []int{250, 750}, 2},       // the default: interval = timeout/3
+		{5, 1500, 19, []int{250, 750, 1250}, 2}, // timeout not a multiple of the interval
+		{10, 3000, 38, []int{1250, 2250}, -1},
+	}
+}
+
+func c15tFaults(calls [2]int, tier string) []c15tFault {
+	var out []c15tFault
+	runs := []int{1, 2, 3, 4, 5, 6, 8, 0}
+	secs := []int{1, 2, 4, 8, 0}
+	if tier == "thorough" {
+		runs = []int{1, 2, 3, 4, 5, 6, 7, 8, 9, 10, 12, 0}
+		secs = []int{1, 2, 3, 4, 6, 8, 12, 0}
+	}
+	for v := 1; v <= 2; v++ {
+		for st := 1; st <= calls[v-1]; st++ {
+			for _, l := range runs {
+				out = append(out, c15tFault{Victim: v, Kind: "error-reply", Start: st, Len: l})
+			}
+			for _, k := range []string{"cut", "reply-lost"} {
+				for _, l := range secs {
+					out = append(out, c15tFault{Victim: v, Kind: k, Start: st, Len: l})
+				}
+			}
+		}
+	}
+	return out
 }
 
 func c15ConfigGrid() []c15tScenario {
@@ -313,7 +462,7 @@ func c15ConfigGrid() []c15tScenario {
 // runC15Ticker is called by runC15 after the BFS plans.
 func runC15Ticker(t *testing.T, rep *mc.Reporter, budget *mc.Budget) {
 	shard, nshards := mc.ShardOf()
-	scns, bound := c15tScenarios(mc.Tier())
+	tier := mc.Tier()
 	idx := 0
 	for _, scn := range c15ConfigGrid() {
 		idx++
@@ -322,13 +471,56 @@ func runC15Ticker(t *testing.T, rep *mc.Reporter, budget *mc.Budget) {
 		}
 		rep.Exec(scn, nil, c15ConfigFix(scn))
 	}
-	for _, scn := range scns {
-		scn := scn
-		idx++
-		if idx%nshards != shard || budget.Expired() {
-			continue
+	sigSeen := map[string]int{}
+	for _, cf := range c15tConfigs(tier) {
+		for pi, ph := range cf.phases {
+			base := c15tScenario{Kind: "ticker", TimeoutS: cf.timeoutS, RenewMs: cf.renewMs, HorizonS: cf.horizonS, PhaseMs: ph}
+			// (1) per-request fates chosen by the explorer, deviation-bounded (first phase only)
+			if pi == 0 && cf.dfs >= 0 {
+				idx++
+				if idx%nshards == shard && !budget.Expired() {
+					scn := base
+					mc.RunScenario(rep, scn, cf.dfs, budget, func(ch *mc.Chooser) mc.Result { return c15tExec(t, scn, ch) })
+				}
+			}
+			// (2) the complete dimension: every run of failing calls / every cut, starting at every call
+			probe := base
+			probe.Fault = &c15tFault{Victim: 1, Kind: "error-reply", Start: 1 << 30}
+			r0, calls := c15tExecN(t, probe, mc.NewChooser(nil))
+			if r0.Verdict == "machinery" {
+				rep.Exec(probe, nil, r0)
+				return
+			}
+			if shard == 0 {
+				rep.Scenario()
+			}
+			for _, f := range c15tFaults(calls, tier) {
+				idx++
+				if idx%nshards != shard {
+					continue
+				}
+				if budget.Expired() {
+					rep.Capped("deadline reached in the ticker fault enumeration")
+					return
+				}
+				f := f
+				scn := base
+				scn.Fault = &f
+				res := c15tExec(t, scn, mc.NewChooser(nil))
+				if res.Verdict == "violation" {
+					sigSeen[res.Sig]++
+					if sigSeen[res.Sig] <= 2 {
+						for k := 0; k < 2; k++ {
+							if r2 := c15tExec(t, scn, mc.NewChooser(nil)); r2.Verdict != res.Verdict || r2.Sig != res.Sig {
+								res = mc.Result{Verdict: "machinery", Clause: fmt.Sprintf("violation not reproducible on re-run %d: first=%s now=%s/%s", k+1, res.Sig, r2.Verdict, r2.Sig), Detail: res.Detail}
+								break
+							}
+						}
+					}
+				}
+				rep.Exec(scn, nil, res)
+			}
 		}
-		mc.RunScenario(rep, scn, bound, budget, func(ch *mc.Chooser) mc.Result { return c15tExec(t, scn, ch) })
 	}
 }
 
